@@ -179,7 +179,7 @@ theorem copyCtor_contract (P : Params) (n0 : Nat) (o : Table) (ids0 : List Nat) 
   intro h hn ⟨⟨ob, hb, ht⟩, hid⟩
   have := copyCtor_spec P n0 (foot [] n0) o ob hb (fun x hx => foot_new hx) ids0 h h hn ⟨rfl, ht, hid⟩
   refine SafeF.mono this ?_
-  intro t' h' ⟨nb, hge, _, et, htn, hto, hid', _⟩
+  intro t' h' ⟨nb, hge, _, et, htn, hto, hid', _, _⟩
   subst et
   refine ⟨⟨nb, rfl, htn⟩, ⟨ob, hb, hto⟩, ⟨fun x => ?_, fun x hx => ?_⟩⟩
   · simp [owned, hid', or_comm]
@@ -218,7 +218,7 @@ theorem copyAssign_contract (P : Params) (n0 : Nat) (t o : Table) (ids0 : List N
   unfold copyAssign
   have cc := copyCtor_spec P n0 (foot (owned t) n0) o ob hob (fun x hx => foot_new hx) ids0 h
   apply SafeF.bind_triple cc hn ⟨rfl, hto, hid⟩
-  intro copy h1 ⟨nb, hge, _, ecopy, htn, _, hid1, hkeep⟩ hle1
+  intro copy h1 ⟨nb, hge, _, ecopy, htn, _, hid1, hkeep, _⟩ hle1
   subst ecopy
   cases hb : t.entries with
   | none =>
